@@ -2,7 +2,12 @@
 //!
 //! usage: h_fsstore seq <v1|v2> <seed> <nops> <dir>     sequential random operations, transcript on stdout
 //!        h_fsstore mt  <v1|v2> <seed> <threads> <ops_per_thread> <nkeys> <dir>   concurrent history
+//!        h_fsstore aseq <v1|v2> <seed> <nscenarios> <dir>   async API: operations ISSUED in one order, their
+//!                                                         futures driven to completion in another
+//!        h_fsstore amt <v1|v2> <seed> <tasks> <ops_per_task> <nkeys> <dir>  async API on a multi-thread runtime
 //! Lines start with "R ".
+//!  aseq: R A <scen> ops <W:k:id|D:k:lazy|G:k|L> ... ; order <issue index> ...
+//!        R A <scen> step <j> op <i> res <..> state <k0> <k1> ...      (state read back synchronously)
 //!  seq:  R <i> W <ns> <key> <valueid> <len> -> ok|err
 //!        R <i> D <ns> <key> <lazy> -> ok|err
 //!        R <i> G <ns> <key> -> <valueid>|none|err|torn
@@ -15,7 +20,9 @@ use std::path::PathBuf;
 use std::sync::atomic::{AtomicU64, Ordering};
 use std::sync::{Arc, Mutex};
 
-use lightning::util::persist::KVStoreSync;
+use lightning::util::persist::{KVStore, KVStoreSync};
+use std::future::Future;
+use std::pin::Pin;
 use lightning_persister::fs_store::v1::FilesystemStore;
 use lightning_persister::fs_store::v2::FilesystemStoreV2;
 use verif_harness::Rng;
@@ -267,11 +274,206 @@ fn run_mt(ver: &str, seed: u64, threads: usize, per: usize, nkeys: usize, dir: P
 	let _ = std::fs::remove_dir_all(&dir);
 }
 
+enum AOut {
+	Unit(Result<(), lightning::io::Error>),
+	Bytes(Result<Vec<u8>, lightning::io::Error>),
+	Keys(Result<Vec<String>, lightning::io::Error>),
+}
+type AFut = Pin<Box<dyn Future<Output = AOut> + Send>>;
+
+fn issue(store: &Store, kind: &str, k: &str, arg: Vec<u8>, lazy: bool) -> AFut {
+	macro_rules! go {
+		($s: expr) => {{
+			match kind {
+				"W" => {
+					let f = KVStore::write($s, "np1", "ns1", k, arg);
+					Box::pin(async move { AOut::Unit(f.await) }) as AFut
+				},
+				"D" => {
+					let f = KVStore::remove($s, "np1", "ns1", k, lazy);
+					Box::pin(async move { AOut::Unit(f.await) }) as AFut
+				},
+				"G" => {
+					let f = KVStore::read($s, "np1", "ns1", k);
+					Box::pin(async move { AOut::Bytes(f.await) }) as AFut
+				},
+				_ => {
+					let f = KVStore::list($s, "np1", "ns1");
+					Box::pin(async move { AOut::Keys(f.await) }) as AFut
+				},
+			}
+		}};
+	}
+	match store {
+		Store::V1(s) => go!(s),
+		Store::V2(s) => go!(s),
+	}
+}
+
+fn show_out(o: AOut, known: &HashMap<u64, usize>, ks: &[String]) -> String {
+	match o {
+		AOut::Unit(r) => if r.is_ok() { "ok".to_string() } else { "err".to_string() },
+		AOut::Bytes(Ok(v)) => classify(&v, known),
+		AOut::Bytes(Err(e)) if e.kind() == lightning::io::ErrorKind::NotFound => "none".to_string(),
+		AOut::Bytes(Err(_)) => "err".to_string(),
+		AOut::Keys(Ok(v)) => {
+			let mut ids: Vec<String> = v.iter().map(|n| ks.iter().position(|x| x == n).map(|j| format!("{}", j)).unwrap_or(format!("?{}", n))).collect();
+			ids.sort();
+			format!("[{}]", ids.join(","))
+		},
+		AOut::Keys(Err(_)) => "err".to_string(),
+	}
+}
+
+fn run_aseq(ver: &str, seed: u64, nscen: usize, dir: PathBuf) {
+	let rt = tokio::runtime::Builder::new_current_thread().build().unwrap();
+	let ks = keys();
+	let mut rng = Rng(seed);
+	let nkeys = 2usize;
+	for sc in 0..nscen {
+		let d = dir.join(format!("s{}", sc));
+		let _ = std::fs::remove_dir_all(&d);
+		let store = Store::open(ver, d.clone());
+		let mut known: HashMap<u64, usize> = HashMap::new();
+		let n = 2 + rng.below(6) as usize;
+		let mut futs: Vec<Option<AFut>> = Vec::new();
+		let mut desc = Vec::new();
+		let mut next_id = 1u64;
+		// optionally a completed prefix so that files exist before the interesting part
+		for i in 0..n {
+			let k = rng.below(nkeys as u64) as usize;
+			let r = rng.below(10);
+			if r < 5 {
+				let id = next_id;
+				next_id += 1;
+				let len = 8 + rng.below(200) as usize;
+				known.insert(id, len);
+				futs.push(Some(issue(&store, "W", &ks[k], value(id, len), false)));
+				desc.push(format!("W:{}:{}", k, id));
+			} else if r < 8 {
+				let lazy = rng.below(2) == 0;
+				futs.push(Some(issue(&store, "D", &ks[k], Vec::new(), lazy)));
+				desc.push(format!("D:{}:{}", k, if lazy { 1 } else { 0 }));
+			} else if r < 9 {
+				futs.push(Some(issue(&store, "G", &ks[k], Vec::new(), false)));
+				desc.push(format!("G:{}", k));
+			} else {
+				futs.push(Some(issue(&store, "L", "", Vec::new(), false)));
+				desc.push("L".to_string());
+			}
+			let _ = i;
+		}
+		// completion order: a seeded permutation (sometimes issue order, sometimes reversed)
+		let mut order: Vec<usize> = (0..n).collect();
+		match rng.below(4) {
+			0 => {},
+			1 => order.reverse(),
+			_ => {
+				for i in (1..n).rev() {
+					let j = rng.below(i as u64 + 1) as usize;
+					order.swap(i, j);
+				}
+			},
+		}
+		println!("R A {} ops {} ; order {}", sc, desc.join(" "), order.iter().map(|x| x.to_string()).collect::<Vec<_>>().join(" "));
+		for (j, &i) in order.iter().enumerate() {
+			let f = futs[i].take().unwrap();
+			let out = rt.block_on(f);
+			let res = show_out(out, &known, &ks);
+			let mut st = Vec::new();
+			for k in 0..nkeys {
+				let r = KVStoreSync::read(store.kv(), "np1", "ns1", &ks[k]);
+				st.push(match r {
+					Ok(v) => classify(&v, &known),
+					Err(e) if e.kind() == lightning::io::ErrorKind::NotFound => "none".to_string(),
+					Err(_) => "err".to_string(),
+				});
+			}
+			println!("R A {} step {} op {} res {} state {}", sc, j, i, res, st.join(" "));
+		}
+		drop(store);
+		let _ = std::fs::remove_dir_all(&d);
+	}
+	println!("R end");
+}
+
+fn run_amt(ver: &str, seed: u64, tasks: usize, per: usize, nkeys: usize, dir: PathBuf) {
+	let _ = std::fs::remove_dir_all(&dir);
+	let rt = tokio::runtime::Builder::new_multi_thread().worker_threads(4).build().unwrap();
+	let store = Arc::new(Store::open(ver, dir.clone()));
+	let clock = Arc::new(AtomicU64::new(1));
+	let next_id = Arc::new(AtomicU64::new(1));
+	let known: Arc<Mutex<HashMap<u64, usize>>> = Arc::new(Mutex::new(HashMap::new()));
+	let ks = keys();
+	let out: Arc<Mutex<Vec<String>>> = Arc::new(Mutex::new(Vec::new()));
+	let mut hs = Vec::new();
+	for t in 0..tasks {
+		let (store, clock, next_id, known, out, ks) = (store.clone(), clock.clone(), next_id.clone(), known.clone(), out.clone(), ks.clone());
+		hs.push(rt.spawn(async move {
+			let mut rng = Rng(seed ^ ((t as u64 + 1) * 0x7654321));
+			let mut lines = Vec::new();
+			for _ in 0..per {
+				let k = rng.below(nkeys as u64) as usize;
+				let r = rng.below(10);
+				if r < 5 {
+					let id = next_id.fetch_add(1, Ordering::SeqCst);
+					let len = 8 + rng.below(3000) as usize;
+					known.lock().unwrap().insert(id, len);
+					let a = clock.fetch_add(1, Ordering::SeqCst);
+					let f = issue(&store, "W", &ks[k], value(id, len), false);
+					let o = f.await;
+					let b = clock.fetch_add(1, Ordering::SeqCst);
+					lines.push(format!("R H {} {} {} W {} {} -> {}", t, a, b, k, id, show_out(o, &known.lock().unwrap(), &ks)));
+				} else if r < 6 {
+					let lazy = rng.below(2) == 0;
+					let a = clock.fetch_add(1, Ordering::SeqCst);
+					let f = issue(&store, "D", &ks[k], Vec::new(), lazy);
+					let o = f.await;
+					let b = clock.fetch_add(1, Ordering::SeqCst);
+					lines.push(format!("R H {} {} {} D {} {} -> {}", t, a, b, k, if lazy { 1 } else { 0 }, show_out(o, &known.lock().unwrap(), &ks)));
+				} else {
+					let a = clock.fetch_add(1, Ordering::SeqCst);
+					let f = issue(&store, "G", &ks[k], Vec::new(), false);
+					let o = f.await;
+					let b = clock.fetch_add(1, Ordering::SeqCst);
+					lines.push(format!("R H {} {} {} G {} - -> {}", t, a, b, k, show_out(o, &known.lock().unwrap(), &ks)));
+				}
+			}
+			out.lock().unwrap().extend(lines);
+		}));
+	}
+	rt.block_on(async {
+		for h in hs {
+			h.await.unwrap();
+		}
+	});
+	let mut lines = out.lock().unwrap().clone();
+	for k in 0..nkeys {
+		let a = clock.fetch_add(1, Ordering::SeqCst);
+		let r = KVStoreSync::read(store.kv(), "np1", "ns1", &ks[k]);
+		let b = clock.fetch_add(1, Ordering::SeqCst);
+		let o = match r {
+			Ok(v) => classify(&v, &known.lock().unwrap()),
+			Err(e) if e.kind() == lightning::io::ErrorKind::NotFound => "none".to_string(),
+			Err(_) => "err".to_string(),
+		};
+		lines.push(format!("R H {} {} {} G {} - -> {}", tasks, a, b, k, o));
+	}
+	for l in lines {
+		println!("{}", l);
+	}
+	println!("R end");
+	drop(rt);
+	let _ = std::fs::remove_dir_all(&dir);
+}
+
 fn main() {
 	let a: Vec<String> = std::env::args().collect();
 	match a.get(1).map(|s| s.as_str()) {
 		Some("seq") => run_seq(&a[2], a[3].parse().unwrap(), a[4].parse().unwrap(), PathBuf::from(&a[5])),
 		Some("mt") => run_mt(&a[2], a[3].parse().unwrap(), a[4].parse().unwrap(), a[5].parse().unwrap(), a[6].parse().unwrap(), PathBuf::from(&a[7])),
+		Some("aseq") => run_aseq(&a[2], a[3].parse().unwrap(), a[4].parse().unwrap(), PathBuf::from(&a[5])),
+		Some("amt") => run_amt(&a[2], a[3].parse().unwrap(), a[4].parse().unwrap(), a[5].parse().unwrap(), a[6].parse().unwrap(), PathBuf::from(&a[7])),
 		_ => println!("R usage"),
 	}
 }
